@@ -561,6 +561,94 @@ fn small_root_space(ctx: &Ctx) {
 }
 
 /// wide-scale complex coefficient lattice: mixed scale (1e-3 .. 1e3) and purely imaginary coefficients
+/// polynomials with a vanishing constant term and GENERIC (non-dyadic) complex coefficients above it: the closed forms and the
+/// deflation return the root 0 only to rounding (1e-14, not exactly 0), so its polish runs x -> 1e-30 -> .. -> 1e-155 .. and passes
+/// through the magnitudes where (p'/p)^2 is on the verge of overflow. Exactly one returned value may lie at 0 (the other roots are
+/// bounded away from it by Cauchy's lower bound), whatever the refinement setting
+fn zero_constant_space(ctx: &Ctx, deg: usize) {
+    let gl: Vec<C> = vec![(45.24339293946149, -0.001061492808960908), (0.014140438686290125, 94.278834521876), (-0.3172387511586921, 0.0176799890260945), (0.7, 0.0), (-0.3, 0.55), (1.0 / 3.0, -2.1), (12.9, 7.3), (-0.061, 0.0)];
+    let l = gl.len() as u64;
+    ctx.lattice(
+        &format!("degree {} with zero constant term, coefficients a_1..a_{} over 8 generic complex letters, both refinement settings: exactly one value at 0", deg, deg),
+        pow(l, deg as u32) * 2,
+        |idx| format!("coeffs#{} refine={}", idx / 2, idx % 2 == 1),
+        |idx, acc| {
+            let mut d = vec![0usize; deg];
+            digits_uniform(idx / 2, l, &mut d);
+            let mut coef: Vec<C> = vec![(0.0, 0.0)];
+            coef.extend(d.iter().map(|&k| gl[k]));
+            let refine = idx % 2 == 1;
+            acc.nontriv("generic polynomial with a root at 0");
+            let key = || format!("zero-constant coeffs={:?} refine={}", coef, refine);
+            let mut local = Acc::new("t");
+            let res = catch(|| -> Result<(), String> {
+                let got = run_cmplx(&coef, refine);
+                judge_roots(&coef, &got, refine, false, &mut local, "zero-constant")?;
+                // Cauchy: every non-zero root z of a_1 + a_2 x + .. has |z| >= |a_1| / (|a_1| + max |a_k|) >= 1e-4 on this alphabet
+                let a1 = coef[1].0.hypot(coef[1].1);
+                let amax = coef[2..].iter().map(|z| z.0.hypot(z.1)).fold(0.0, f64::max);
+                let low = a1 / (a1 + amax);
+                let at_zero = got.iter().filter(|z| z.0.hypot(z.1) <= 1e-6 * low).count();
+                ensure!(at_zero == 1, "{} returned values lie at the root 0 (the other roots have modulus >= {:e}): {:?}", at_zero, low, got);
+                Ok(())
+            });
+            acc.merge_worst(local);
+            match res {
+                Ok(Ok(())) => {}
+                Ok(Err(e)) => acc.fail(idx, key(), e),
+                Err(p) => acc.fail(idx, key(), format!("unexpected panic: {}", p)),
+            }
+        },
+    );
+}
+
+/// a leading coefficient 1e6 times smaller than the next one (one huge root, the root disc is very large, Laguerre needs well over a dozen
+/// steps from 0): lead x^n + c x^(n-1) + (one middle term) + a x + b, degree 7..12
+fn tiny_lead_space(ctx: &Ctx) {
+    let leads: Vec<C> = vec![(1e-3, 0.0), (1e-3, 1e-3), (-2e-3, 0.0)];
+    let c1s: Vec<C> = vec![(-1000.0, 0.0), (0.0, 1000.0), (700.0, -700.0)];
+    let mids: Vec<C> = vec![(0.0, 0.0), (3.0, 0.0), (0.0, -40.0)];
+    let a1s: Vec<C> = vec![(400.0, 0.0), (-3.0, 2.0), (0.0, 0.0)];
+    let a0s: Vec<C> = vec![(1.0, 0.0), (0.0, -0.5), (25.0, 0.0)];
+    let per = (3 * 3 * 3 * 3 * 3 * 2) as u64;
+    ctx.lattice(
+        "tiny leading coefficient: degree 7..12, lead in {1e-3, 1e-3(1+i), -2e-3} x next in {-1e3, 1e3 i, 700(1-i)} x middle term x a_1 x a_0 (3 letters each), both refinement settings",
+        6 * per,
+        |idx| format!("n={} case#{}", 7 + idx / per, idx % per),
+        |idx, acc| {
+            let n = 7 + (idx / per) as usize;
+            let mut r = idx % per;
+            let refine = r % 2 == 1;
+            r /= 2;
+            let mut pick = |v: &Vec<C>| {
+                let z = v[(r % 3) as usize];
+                r /= 3;
+                z
+            };
+            let (lead, c1, mid, a1, a0) = (pick(&leads), pick(&c1s), pick(&mids), pick(&a1s), pick(&a0s));
+            let mut coef: Vec<C> = vec![(0.0, 0.0); n + 1];
+            coef[n] = lead;
+            coef[n - 1] = c1;
+            coef[n / 2] = mid;
+            coef[1] = a1;
+            coef[0] = a0;
+            acc.nontriv("polynomial with a leading coefficient 1e6 below the next");
+            let key = || format!("tiny-lead coeffs={:?} refine={}", coef, refine);
+            let mut local = Acc::new("t");
+            let res = catch(|| -> Result<(), String> {
+                let got = run_cmplx(&coef, refine);
+                judge_roots(&coef, &got, refine, true, &mut local, "tiny-lead")
+            });
+            acc.merge_worst(local);
+            match res {
+                Ok(Ok(())) => {}
+                Ok(Err(e)) => acc.fail(idx, key(), e),
+                Err(p) => acc.fail(idx, key(), format!("unexpected panic: {}", p)),
+            }
+        },
+    );
+}
+
 fn wide_scale_space(ctx: &Ctx, deg: usize) {
     let letters: Vec<C> = vec![(1., 0.), (0., 1.), (1e3, 0.), (-1e3, 0.), (0., 1e3), (0., -1e3), (1e-3, 0.), (-1e-3, 0.), (0., 1e-3), (0., -1e-3)];
     let nl = letters.len() as u64;
@@ -745,6 +833,10 @@ fn main() {
     for d in 2..=ctx.pick(5, 6) {
         wide_scale_space(&ctx, d);
     }
+    for d in 2..=ctx.pick(5, 6) {
+        zero_constant_space(&ctx, d);
+    }
+    tiny_lead_space(&ctx);
     {
         let depth = ctx.pick(3, 4);
         let mk = |m: Vec<f64>| St { p: Polynomial::new(m.iter().map(|x| Cmplx::new(*x, 0.0)).collect()), pr: Polynomial::new(m.clone()), m };
